@@ -127,7 +127,8 @@ def gen_params(name="polymer", outpath=Path("polymer.itp"), inpath=[],
         # vermouth adds its own citation key to every molecule; that key is not part
         # of the force-field citations but of the ones shipped with vermouth
         citation_map = ChainMap(meta_molecule.molecule.force_field.citations, COMMON_CITATIONS)
-        for citation in meta_molecule.molecule.citations:
+        # citations are a set; sort them so that the header does not depend on the hash seed
+        for citation in sorted(meta_molecule.molecule.citations):
             cite_string =  citation_formatter(citation_map[citation])
             LOGGER.info("Please cite: " + cite_string)
             header.append(cite_string)
